@@ -1211,7 +1211,8 @@ lys_compile_pattern_chblocks_xmlschema2perl(const struct ly_ctx *ctx, const char
 
         /* find our range */
         for (idx = 0; ublock2urange[idx][0]; ++idx) {
-            if (!strncmp(perl_regex + start + ly_strlen_const("\\p{Is"),
+            if ((strlen(ublock2urange[idx][0]) == end - start - ly_strlen_const("\\p{Is}")) &&
+                    !strncmp(perl_regex + start + ly_strlen_const("\\p{Is"),
                     ublock2urange[idx][0], strlen(ublock2urange[idx][0]))) {
                 break;
             }
